@@ -249,9 +249,10 @@ def run(ctx):
         "TLC; abs()/conc()/eval of symbolic cells in zz_verif_c13_test.go; golden inputs of the repository define "
         "'valid under its own schema' (schema 27 has no golden file: derived from the schema-28 input)",
         "value-level behaviour of single steps not modelled: QUIC port defaulting (step 10) is not compared; "
-        "client list tracked through its first element only",
-        "loader acceptance is checked by the harness (yaml.Unmarshal into home.configuration + validateConfig) "
-        "for the undeviated golden documents only, not decided by the spec"])
+        "the client list is tracked element-wise for up to three elements (families of 2-3 clients of "
+        "different shapes in every order); other record lists are opaque values compared by deep equality",
+        "loader acceptance is checked by the harness (real home.parseConfig) for the golden documents and for every "
+        "valid document of the record-list families, not decided by the spec"])
 
 
 def loader_check(ctx, famdocs, by_id, bases):
